@@ -121,7 +121,7 @@ def r_rectab(repo, tier):
                     if isinstance(s2, ast.Assign) and isinstance(s2.targets[0], ast.Name) and s2.targets[0].id == c.id:
                         c = s2.value
                         where = s2.lineno
-            if isinstance(c, ast.List) and all(isinstance(e, ast.Constant) for e in c.elts):
+            if isinstance(c, (ast.List, ast.Tuple)) and all(isinstance(e, ast.Constant) for e in c.elts):
                 tab = {k: e.value for k, e in enumerate(c.elts)}
             elif isinstance(c, ast.Dict):
                 tab = {}
